@@ -753,7 +753,8 @@ impl<'r> Gen<'r> {
                     // (cycle in its src->dst closure); not part of the fragment
                     if let Expr::Var(x) = &e { if *x == v.name { e = self.gen_value(&t); } }
                     // `x = *(&x)` reverts in debug builds (finding F3: the self copy becomes an overlapping MCP)
-                    if let Expr::RefDeref(inner) = &e { if let Expr::Var(x) = &**inner { if *x == v.name { e = self.gen_value(&t); } } }
+                    // (also through a path: `v.0 = *(&(v.0))`)
+                    if let Expr::RefDeref(inner) = &e { if root_var(inner) == Some(v.name.as_str()) { e = self.gen_value(&t); } }
                     // Re-assigning an aggregate from another local (`a = b; … b = a;`) builds memcpy cycles on which
                     // sway-ir's memcpyopt::copy_prop_reverse does not terminate (compiler hang, mostly release).
                     // Aggregate re-assignments therefore never copy from another aggregate local.
@@ -916,6 +917,15 @@ impl<'r> Gen<'r> {
         let (params, ret) = src.sig.clone().unwrap();
         self.sigs.push(FnSig { name: dup.name.clone(), params, ret });
         self.fns.push(dup);
+    }
+}
+
+/// the variable an access path starts from
+fn root_var(e: &Expr) -> Option<&str> {
+    match e {
+        Expr::Var(x) => Some(x.as_str()),
+        Expr::TupGet(a, _) | Expr::FieldGet(a, _, _) | Expr::Idx(a, _) | Expr::RefDeref(a) => root_var(a),
+        _ => None,
     }
 }
 
